@@ -81,17 +81,17 @@ const (
 )
 
 type zoneOut struct {
-	Zone        string               `json:"zone"`
-	Cnt         counters             `json:"counters"`
-	Fingerprint string               `json:"fingerprint"`
-	NoInstant   []string             `json:"no_instant_days"`
-	Violations  []found              `json:"violations"`
-	Samples     []any                `json:"samples"`
-	Flagged     []int64              `json:"flagged,omitempty"`
-	Trace       []string             `json:"trace,omitempty"`
-	Machinery   []string             `json:"machinery"`
-	Secs        float64              `json:"secs"`
-	Phases      [3]float64           `json:"phase_secs"`
+	Zone        string     `json:"zone"`
+	Cnt         counters   `json:"counters"`
+	Fingerprint string     `json:"fingerprint"`
+	NoInstant   []string   `json:"no_instant_days"`
+	Violations  []found    `json:"violations"`
+	Samples     []any      `json:"samples"`
+	Flagged     []int64    `json:"flagged,omitempty"`
+	Trace       []string   `json:"trace,omitempty"`
+	Machinery   []string   `json:"machinery"`
+	Secs        float64    `json:"secs"`
+	Phases      [3]float64 `json:"phase_secs"`
 }
 
 type tzOut struct {
